@@ -422,7 +422,8 @@ NATURAL = ["missing_input", "empty_input", "garbage_input", "binary_input", "no_
            "ligand_duplicate_names", "unknown_option", "cif_garbage", "input_is_directory", "his_no_h_assign_only",
            "conflicting_clean_userff", "only_waters_dropped", "ter_only", "ligand_partial_nonintegral",
            "ligand_partial_nonintegral", "nonintegral_userff_large", "nonintegral_userff_large",
-           "nonintegral_userff_terminal_nucleotide", "nonintegral_userff_terminal_nucleotide"]
+           "nonintegral_userff_terminal_nucleotide", "nonintegral_userff_terminal_nucleotide",
+           "corrupt_coordinate_field", "corrupt_coordinate_field"]
 
 
 def good_text(rng):
@@ -509,6 +510,15 @@ def natural(spec, rng):
         opts = ["--userff={dir}/u.dat", "--usernames={dir}/u.names"]
         its, _ = S.assemble([{"id": "A", "start": 1, "residues": strand}])
         text = pdbfmt.to_text(its)
+    elif f == "corrupt_coordinate_field":
+        # one ATOM record whose coordinate field is not a number (overflow asterisks, a letter typed for a digit)
+        lines = text.split("\n")
+        ks = [i for i, ln in enumerate(lines) if ln.startswith("ATOM")]
+        k = rng.choice(ks[3:]) if len(ks) > 3 else ks[0]
+        bad = rng.choice(["********", "   1.9O2", "  12.3.4", "     nan"[:8]])
+        col = rng.choice([30, 38, 46])
+        lines[k] = lines[k][:col] + bad + lines[k][col + 8:]
+        text = "\n".join(lines)
     elif f == "garbage_userff":
         extra = {"u.dat": "ALA CB notanumber 1.0\n", "u.names": amber_names}
         opts = ["--userff={dir}/u.dat", "--usernames={dir}/u.names"]
